@@ -113,9 +113,28 @@ def gen_pair(rng, quick):
                                     ("unknown", "after_a_little"), ("unknown", "mid"))))
 
 
+def gen_ratio(rng, idx, quick):
+    """A peer-opened channel whose opener advertises a window far above the accepting transport's own default; the
+    acceptor then sends several times its own default."""
+    acc = (32768, 65536, None)[idx % 3] if not quick else (32768, 65536)[idx % 2]
+    ratio = (None, 10, 12, 100)[idx // 3 % 4] if not quick else (10, 12, 100, None)[idx // 2 % 4]
+    base = acc if acc is not None else 2097152
+    win = None if ratio is None else min(base * ratio, (1 << 32) - 1)
+    if acc is None and not quick and idx % 2 == 0 and ratio is not None:
+        win = 20 * 1024 * 1024  # 20 MiB against the stock 2 MiB default
+    total = 4 * base + 17 if acc is not None else (base + 70000 if quick else 3 * base)
+    if win is not None:
+        total = min(total, win - 1) if win > base else total  # stay inside what the opener advertised: no adjust is needed at all
+    return dict(kind="pair", ratio=ratio, acceptor_default=acc, window=win, packet=rng.choice((32768, 32768, 4096)) if acc else 32768,
+                total=total, err=int(total * rng.choice((0.0, 0.3))), read=rng.choice((40000, 1 << 20)), direction="s2c",
+                latency=0, api=rng.choice(("sendall", "send")), reader_half_closed=False, request=None)
+
+
 def run_pair(ctx, case, rng):
     d = case["direction"]
-    skw = dict(default_window_size=case["window"], default_max_packet_size=case["packet"])
+    skw = dict(default_max_packet_size=case["packet"])
+    if case.get("acceptor_default", case["window"]) is not None:
+        skw["default_window_size"] = case.get("acceptor_default", case["window"])
     p = pair.Pair(rng=rng, server_kw=skw)
     cm.watch(p.tc, p.rec, "c")
     cm.watch(p.ts, p.rec, "s")
@@ -125,6 +144,10 @@ def run_pair(ctx, case, rng):
             return
         cm.diverge_ids(p, rng)
         c, s = p.session(window_size=case["window"], max_packet_size=case["packet"])
+        if "ratio" in case:
+            ctx.count("window_ratio_cells")
+            if s.out_window_size >= 10 * p.ts.default_window_size:
+                ctx.count("acceptor_granted_10x_its_own_default")
         if c is not None and c.chanid != c.remote_chanid:
             ctx.count("channels_with_local_id_ne_remote_id")
         w, r = (c, s) if d == "c2s" else (s, c)
@@ -362,6 +385,122 @@ def run_kexlock(ctx, case, rng):
 
 
 # ---------------------------------------------------------------------------
+def run_discard_kex(ctx, case, rng):
+    """The receiving side starts a re-key; its KEXINIT is held on the link, so the (conforming) peer goes on sending: a full
+    window of extended data with discarded type codes.  The adjusts owed for those bytes are produced by the receiver's
+    transport thread between its own KEXINIT and the peer's KEXINIT; they must still go out after NEWKEYS."""
+    role = case["role"]
+    w = case["window"]
+    a = Attacker(role=role, rng=rng, victim_kw=dict(default_window_size=w, default_max_packet_size=32768))
+    cm.watch(a.victim, a.rec, "v")
+    holder = {}
+    try:
+        if not a.start(auth=True):
+            ctx.inconclusive("attacker handshake failed (discard during kex)")
+            return
+        a.takeover()
+        aid = 321
+        if role == "client":
+            a.send(cm.OPEN, "session", aid, 1 << 20, 32768)
+            r = a.wait_inbox(lambda e: e["type"] == cm.OPEN_OK, 20)
+            if r is None:
+                ctx.inconclusive("no confirmation (discard during kex)")
+                return
+            vid = cm.parse(bytes([cm.OPEN_OK]) + r["payload"])["sender"]
+            vchan = a.victim.accept(20)
+            v_to_a = a.link.ba
+        else:
+            th = threading.Thread(target=lambda: holder.__setitem__("chan", a.victim.open_session(window_size=w, timeout=30)), daemon=True)
+            th.start()
+            r = a.wait_inbox(lambda e: e["type"] == cm.OPEN, 20)
+            if r is None:
+                ctx.inconclusive("no CHANNEL_OPEN (discard during kex)")
+                return
+            vid = cm.parse(bytes([cm.OPEN]) + r["payload"])["sender"]
+            a.send(cm.OPEN_OK, vid, aid, 1 << 20, 32768)
+            th.join(30)
+            vchan = holder.get("chan")
+            v_to_a = a.link.ab
+        if vchan is None:
+            ctx.inconclusive("no victim channel (discard during kex)")
+            return
+        rd = cm.PollReader(vchan, rng.getrandbits(32), 9000).start()
+        v_to_a.hold()
+        errs = []
+
+        def rekey():
+            try:
+                a.victim.renegotiate_keys()
+            except Exception as e:
+                errs.append(repr(e))
+
+        n_kex = len(a.victim_msgs("out", (20,)))
+        rk = threading.Thread(target=rekey, daemon=True)
+        rk.start()
+        if not pair.wait_for(lambda: len(a.victim_msgs("out", (20,))) > n_kex, 20, 0.002):
+            v_to_a.release()
+            ctx.inconclusive("victim sent no KEXINIT (discard during kex)")
+            return
+        sent = 0
+        k = 0
+        while sent < w:  # a conforming peer: exactly the window it was granted
+            n = min(w - sent, rng.randint(1, case["maxchunk"]))
+            code = case["codes"][k % len(case["codes"])]
+            k += 1
+            if code is None:
+                a.send(cm.DATA, vid, bytes(n))
+            else:
+                a.send(cm.EXT, vid, code, bytes(n))
+            sent += n
+        if not pair.wait_for(lambda: sum(cm.parse(e["payload"])["len"] for e in a.victim_msgs("in", (cm.DATA, cm.EXT))) >= w, 30, 0.002):
+            v_to_a.release()
+            ctx.inconclusive("victim did not read the window of data (discard during kex)")
+            return
+        # (the application reader may itself be waiting for the exchange with an adjust in hand: legitimate; release now)
+        v_to_a.release()
+        rk.join(120)
+        if rk.is_alive() or errs:
+            ctx.violation("key re-exchange failed while adjusts for discarded data were owed",
+                          "renegotiate_keys did not complete: %s" % errs, dict(case=case))
+            rd.stop()
+            return
+        pair.wait_for(lambda: a.link.quiescent(0.2) and not vchan.recv_ready() and not vchan.recv_stderr_ready(), 20)
+        rd.settle()
+        pair.wait_for(lambda: a.link.quiescent(0.05), 5)
+        # tap facts: discarded bytes read inside the victim's own kex window; adjusts after NEWKEYS
+        inside = 0
+        open_kex = False
+        adj_after = 0
+        newkeys_seen = 0
+        for e in a.rec.snapshot():
+            if e.get("kind") != "msg" or e["side"] != "v":
+                continue
+            if e["dir"] == "out" and e["type"] == 20:
+                open_kex = True
+            elif e["dir"] == "out" and e["type"] == 21:
+                open_kex = False
+                newkeys_seen += 1
+            elif e["dir"] == "in" and e["type"] == cm.EXT and open_kex and cm.parse(e["payload"])["code"] != 1:
+                inside += cm.parse(e["payload"])["len"]
+            elif e["dir"] == "out" and e["type"] == cm.ADJUST and newkeys_seen >= 2:
+                adj_after += 1
+        ctx.count("discarded_bytes_read_inside_own_kex_window", inside)
+        if inside > w // 10:
+            ctx.count("discard_kex_cases_crossing_threshold_inside_kex")
+        if adj_after:
+            ctx.count("adjusts_sent_after_the_exchange")
+        judge_receiver(ctx, a.rec, "v", case)
+        rd.stop()
+        if rd.error is not None:
+            ctx.inconclusive("victim reader error %r" % (rd.error,))
+        ctx.count("discard_kex_cases")
+        if not a.victim.is_active():
+            ctx.inconclusive("victim transport died (discard during kex)")
+    finally:
+        a.close()
+
+
+# ---------------------------------------------------------------------------
 def gen_multi(rng, idx):
     return dict(kind="parked-writers-one-adjust", writers=2 + idx % 3, window=rng.choice((32768, 32769, 65536)),
                 direction="cs"[idx // 3 % 2], chunk=rng.choice((1, 100, 3000)), stderr_mix=rng.random() < 0.5)
@@ -559,7 +698,7 @@ def run_ext(ctx, case, rng):
 def run(ctx):
     cm.install()
     rng = ctx.rng
-    dl = ctx.deadline(30, 400)
+    dl = ctx.deadline(60, 600)
     n_pair = ctx.pick(6, 50)
     n_ext = ctx.pick(5, 36)
     for i in range(n_ext):
@@ -570,6 +709,14 @@ def run(ctx):
         ctx.guard(run_ext, ctx, case, rng)
         ctx.case(("ext", sorted(case.items(), key=str)), sample=case if i < 2 else None,
                  nontrivial=ctx.counters.get("quiescence_credit_checks", 0) > before)
+    for i in range(ctx.pick(2, 16)):
+        j = i * ctx.nshards + ctx.shard
+        case = dict(kind="discarded-data-during-own-kex", role=("client", "server")[j % 2], window=(32768, 40000, 65536)[j // 2 % 3],
+                    codes=[(2,), (0, 2, 3, 4, 5), (2, 1, None, 3)][j // 6 % 3], maxchunk=(1000, 8000)[j % 2])
+        before = ctx.counters.get("discard_kex_cases", 0)
+        ctx.guard(run_discard_kex, ctx, case, rng)
+        ctx.case(("discardkex", repr(case), i), sample=case if i == 0 else None,
+                 nontrivial=ctx.counters.get("discard_kex_cases", 0) > before)
     for i in range(ctx.pick(4, 24)):
         j = i * ctx.nshards + ctx.shard
         case = dict(kind="adjust-owed-during-kex", reader="cs"[j % 2], transit=("stderr", "adjust", "eof", "request")[j // 2 % 4])
@@ -585,6 +732,12 @@ def run(ctx):
         ctx.guard(run_multi, ctx, case, rng)
         ctx.case(("multi", sorted(case.items(), key=str)), sample=case if i < 1 else None,
                  nontrivial=ctx.counters.get("parked_writers_all_progressed", 0) > before)
+    for i in range(ctx.pick(2, 12)):
+        case = gen_ratio(rng, i * ctx.nshards + ctx.shard, ctx.quick)
+        before = ctx.counters.get("transfers_completed", 0)
+        ctx.guard(run_pair, ctx, case, rng)
+        ctx.case(("ratio", sorted(case.items(), key=str)), sample=case if i < 1 else None,
+                 nontrivial=ctx.counters.get("transfers_completed", 0) > before)
     for i in range(n_pair):
         if time.time() > dl:
             break
@@ -598,6 +751,11 @@ def run(ctx):
     ctx.require("ext_cases", 20)
     ctx.require("discarded_bytes_seen", 10000)
     ctx.require("adjusts_seen", 100)
+    ctx.require("discard_kex_cases", 12)
+    ctx.require("discard_kex_cases_crossing_threshold_inside_kex", 10)
+    ctx.require("adjusts_sent_after_the_exchange", 10)
+    ctx.require("window_ratio_cells", 12)
+    ctx.require("acceptor_granted_10x_its_own_default", 8)
     ctx.require("kexlock_cases", 24)
     ctx.require("adjust_owed_during_key_exchange", 20)
     ctx.require("owed_adjusts_sent_after_exchange", 20)
